@@ -212,9 +212,78 @@ def run(ctx):
             ctx.leanchecker(["HitenModel.Props.C12"])
     if section is not None:
         validate_section(ctx, section)
+    retention_filter(ctx)
     numerics(ctx)
     ctx.rule = ("(orbit, stable/unstable, positive/negative, phase fraction, displacement, method) on real corrected orbits; distinct by that "
                 "tuple; non-trivial = every case (a real manifold seed compared with an independent Floquet direction)")
+
+
+def retention_filter(ctx):
+    """The retention filter of `_run_compute` with scripted branch trajectories (real `_max_rel_energy_error`, real safety test):
+    a trajectory is retained iff it stays outside the safety spheres and its Jacobi constant changes by at most energy_tol (either sign)."""
+    from hiten.algorithms.common.energy import crtbp_energy
+    mu = 0.0121505856
+    tol = 1e-6
+    base = np.array([0.9, 0.3, 0.1, 0.1, -0.2, 0.05])
+    C0 = -2 * crtbp_energy(base, mu)
+
+    def with_jacobi_shift(rel):
+        # change the speed so that the Jacobi constant changes by rel*|C0| (C = ... - v^2)
+        v2 = float(base[3:] @ base[3:])
+        new_v2 = v2 - rel * abs(C0)
+        out = base.copy()
+        out[3:] *= math.sqrt(new_v2 / v2)
+        return out
+
+    scripts = [("same", base.copy(), True), ("up-small", with_jacobi_shift(+1e-8), True), ("down-small", with_jacobi_shift(-1e-8), True),
+               ("up-large", with_jacobi_shift(+1e-3), False), ("down-large", with_jacobi_shift(-1e-3), False),
+               ("down-huge", with_jacobi_shift(-0.5), False)]
+    close1 = base.copy()
+    close1[:3] = [-mu + 1e-4, 0.0, 0.0]
+    scripts.append(("inside-primary", close1, False))
+    for stable in (True, False):
+        svc, mf = _make_service(stable, "positive")
+        it = iter(scripts)
+        cur = {}
+
+        def fake_prop(**kw):
+            name, end, keep = next(it)
+            cur["name"] = name
+            return types.SimpleNamespace(times=np.array([0.0, 1.0]) * kw["forward"], states=np.vstack([base, end]))
+        old = mf._propagate_dynsys
+        mf._propagate_dynsys = fake_prop
+        try:
+            orb = _fake_orbit()
+            props = {"orbit": orb, "period": orb.period, "var_dynsys": "VAR", "dynsys": "DYN", "mu": mu,
+                     "system": types.SimpleNamespace(distance=384400.0, primary=types.SimpleNamespace(radius=6378.0),
+                                                     secondary=types.SimpleNamespace(radius=1737.0)),
+                     "eigenvalues": (np.array([0.5]), np.array([2.0]), np.array([])),
+                     "eigenvectors": (np.eye(6)[:, :1], np.eye(6)[:, 1:2], np.zeros((6, 0))),
+                     "stability": types.SimpleNamespace(get_real_eigenvectors=lambda W, lam: (lam, np.asarray(W, dtype=float)))}
+            sub = type("ProbeF", (type(svc),), {k: property(lambda self, v=v: v) for k, v in props.items()})
+            svc.__class__ = sub
+            nT = 9
+            PHIc = np.zeros((nT, 42))
+            PHIc[:, :36] = np.eye(6).ravel()
+            xxc = np.tile(base, (nT, 1))
+            svc.compute_stm = lambda steps: (xxc, np.linspace(0, orb.period, nT), None, PHIc)
+            svc._compute_manifold_section = lambda **kw: base.copy()
+            res = svc._run_compute(step=1.0 / len(scripts), integration_fraction=0.1, NN=1, displacement=1e-6, dt=1e-2, method="adaptive",
+                                   order=8, energy_tol=tol, safe_distance=2.0, show_progress=False)
+        finally:
+            mf._propagate_dynsys = old
+        states_list = res[2]
+        kept = []
+        for name, end, keep in scripts:
+            kept.append(any(np.array_equal(st[-1], end) for st in states_list))
+        for (name, end, keep), k in zip(scripts, kept):
+            ctx.case(("retention", stable, name), nontrivial=True, kind="retention-filter")
+            if k != keep:
+                C1 = -2 * crtbp_energy(end, mu)
+                ctx.violation("retention-filter:%s" % name,
+                              "a branch trajectory whose Jacobi constant changes by %.3g (relative) is %s although energy_tol = %g" % ((C1 - C0) / abs(C0), "retained" if k else "discarded", tol),
+                              {"stable": stable, "case": name, "first_state": base.tolist(), "last_state": end.tolist(), "relative_jacobi_change": float((C1 - C0) / abs(C0)), "energy_tol": tol, "retained": bool(k)})
+                return
 
 
 def validate_section(ctx, section):
